@@ -141,6 +141,7 @@ def to_c(ob, wd, ll, tag):
     cfile = os.path.join(wd, tag + '.c'); meta = os.path.join(wd, tag + '.meta.json')
     cmd = ['python3', os.path.join(ENG, 'ir2c.py'), ll, ob['entry'], '--meta', meta,
            '--cut', ','.join(cname(c) for c in cuts),
+           '--forbid', ','.join(cname(c) for c in resolve_names(ll, ob.get('forbid'))),
            '--redirect', ','.join('%s=%s' % kv for kv in redirect.items()),
            '--models', ','.join(models)]
     rc, o, t, _ = run(cmd, timeout=600, stdout_path=cfile)
@@ -153,7 +154,7 @@ def to_c(ob, wd, ll, tag):
 def cbmc_base(ob, cfile):
     cmd = ['cbmc', cfile, '-I', ENG, '--function', ob['entry']]
     real = REAL[ob.get('real')]
-    if real: cmd += ['-DREAL_T=' + real]
+    if real: cmd += ['-DVF_NARROW_T=' + real]
     if ob.get('object_bits'): cmd += ['--object-bits', str(ob['object_bits'])]
     for d in ob.get('cdefs', []): cmd.append('-D' + d)
     return cmd
@@ -172,6 +173,10 @@ def unwindset(ob, cfile, wd):
         for pat, n in spec.items():
             if pat != 'default' and re.search(pat, fn): b = n
         items.append('%s:%d' % (l, b + 1))
+    # recursion: bound every translated function named by the 'recursion' spec
+    for pat, n in (ob.get('recursion') or {}).items():
+        for fn in sorted(set(re.findall(r'^(?:\w[\w \*]*?)\b(f_\w+)\(', open(cfile).read(), re.M))):
+            if re.search(pat, fn): items.append('%s:%d' % (fn, n + 1))
     return items
 
 PROP_RE = re.compile(r'^\[([^\]]+)\] (?:line \d+ )?(.*): (SUCCESS|FAILURE|UNKNOWN|ERROR)$', re.M)
@@ -257,10 +262,25 @@ def native_build(ob, wd):
         f.write('void vf_cut_tramp(void) { vf_cut_exit(); }\n')
         for c in cuts:
             f.write('void cut_%d(void) __asm__("%s") __attribute__((alias("vf_cut_tramp")));\n' % (abs(hash(c)) % 10**9, c))
-    cmd = [CLANG, '-O1', '-g', '-fsanitize=address,undefined', '-fno-sanitize-recover=undefined', '-Wno-everything',
-           '-DVF_ENTRY=' + ob['entry'], ll2, '-x', 'c', stubs, '-x', 'c++', os.path.join(ENG, 'vf_native.cpp'), '-o', exe, '-lpthread']
-    rc, o, t, _ = run(cmd, timeout=900)
-    if rc != 0: raise Inconclusive('native replay build failed: ' + o[-3000:])
+    obj = os.path.join(wd, 'native.o')
+    # the IR is already instrumented (sanitizer passes ran when it was emitted): compile it as is
+    rc, o, t, _ = run([CLANG, '-c', '-O0', '-g', '-Wno-everything', '-x', 'ir', ll2, '-o', obj], timeout=900)
+    if rc != 0: raise Inconclusive('native replay build failed (IR): ' + o[-3000:])
+    base = [CLANG, '-O1', '-g', '-fsanitize=address,undefined', '-fno-sanitize-recover=undefined', '-Wno-everything',
+            '-DVF_ENTRY=' + ob['entry'], obj, '-x', 'c', stubs, '-x', 'c++', os.path.join(ENG, 'vf_native.cpp'), '-o', exe, '-lpthread', '-Wl,--no-demangle']
+    rc, o, t, _ = run(base, timeout=900)
+    if rc != 0:
+        # symbols defined in other repo TUs (the harness includes one source file): give each a
+        # trap definition; reaching one in a replay is reported, never silently ignored
+        und = sorted(set(re.findall(r"undefined reference to `([^']+)'", o)))
+        if not und: raise Inconclusive('native replay build failed: ' + o[-3000:])
+        us = os.path.join(wd, 'undef_stubs.c')
+        with open(us, 'w') as f:
+            f.write('void vf_unresolved_called(void);\n')
+            for i, u in enumerate(und):
+                f.write('void vf_u_%d(void) __asm__("%s"); void vf_u_%d(void) { vf_unresolved_called(); }\n' % (i, u, i))
+        rc, o, t, _ = run(base + ['-x', 'c', us], timeout=900)
+        if rc != 0: raise Inconclusive('native replay build failed: ' + o[-3000:])
     return exe
 
 def native_replay(ob, wd, vals, path=None):
@@ -322,7 +342,7 @@ def do_obligation(pid, ob, tier, scratch, fids, known):
             if 'unwinding assertion' in desc:
                 ce['class'] = 'bound'; unconfirmed.append(ce); rec['counterexamples'].append(ce); continue
             vals = traces.get(pname)
-            if vals is None or tried >= 6:
+            if vals is None or tried >= 4 or (confirmed is not None and not kf):
                 ce['class'] = 'not-replayed'; unconfirmed.append(ce); rec['counterexamples'].append(ce); continue
             tried += 1
             try:
@@ -331,15 +351,15 @@ def do_obligation(pid, ob, tier, scratch, fids, known):
                 ce['class'] = 'replay-build-failed'; ce['detail'] = str(e)[-800:]; unconfirmed.append(ce); rec['counterexamples'].append(ce); continue
             ce['native_rc'] = rc; ce['native_tail'] = o[-1200:]
             ce['nondet_values'] = len(vals)
-            reproduced = rc not in (0, 77, 78)
+            reproduced = reproduced_natively(rc, o)
             if ob.get('real') and not reproduced:
                 ce['class'] = 'narrow-format-only'
             if reproduced:
                 ce['class'] = 'confirmed'
-                rp = save_replay(pid, name, ob, vals, pname, desc_h, o)
-                ce['replay'] = rp
                 if kf: known_hits.append((kf, ce))
-                elif confirmed is None: confirmed = ce
+                elif confirmed is None:
+                    confirmed = ce
+                    ce['replay'] = save_replay(pid, name, ob, vals, pname, desc_h, o)
             else:
                 ce['class'] = ce.get('class', 'unconfirmed'); unconfirmed.append(ce)
             rec['counterexamples'].append(ce)
@@ -357,6 +377,14 @@ def do_obligation(pid, ob, tier, scratch, fids, known):
         return rec
     finally:
         rec['wall_s'] = round(time.time() - t0, 2)
+
+def reproduced_natively(rc, out):
+    """a replay counts only if the harness/library assertion fired, a sanitizer reported, or the run hung"""
+    if 'VF-NATIVE-FAIL' in out: return True
+    if 'ERROR: AddressSanitizer' in out or 'runtime error:' in out or 'ERROR: LeakSanitizer' in out: return True
+    if rc in (-14, 142) or rc == -999: return True   # alarm(60): does not terminate
+    if rc in (-8, 136) and 'VF-NATIVE' not in out: return True  # SIGFPE (integer division by zero)
+    return False
 
 def witness_run(ob, wd, uw, timeout, mem):
     try:
@@ -483,7 +511,7 @@ def do_replay(pid, P, path, scratch):
     wd = os.path.join(scratch, ob['name']); os.makedirs(wd, exist_ok=True)
     rc, o = native_replay(ob, wd, [tuple(v) for v in j['nondet_values']])
     print(o[-3000:])
-    if rc not in (0, 77, 78):
+    if reproduced_natively(rc, o):
         print('VIOLATION property=%s replay=%s' % (pid, path)); return 1
     print('replay did not reproduce (rc=%d)' % rc); return 0
 
